@@ -156,6 +156,25 @@ impl Sess {
         Sess { heap, env, outputs: RefCell::new(IndexMap::new()) }
     }
 
+    /// Fresh heap + environment with `inputs` bound to the record the CLI builds from one JSON object (every field converted
+    /// on its own, in order, then the record inserted - so the record's heap cell comes after the cells of its fields).
+    pub fn with_inputs(doc: &serde_json::Value) -> Sess {
+        clear_function_call_stats();
+        let heap = Rc::new(RefCell::new(Heap::new()));
+        let env = Rc::new(Environment::new());
+        let mut fields = IndexMap::new();
+        if let serde_json::Value::Object(m) = doc {
+            for (k, v) in m.iter() {
+                if let Ok(val) = blots_core::values::SerializableValue::from_json(v).to_value(&mut heap.borrow_mut()) {
+                    fields.insert(k.clone(), val);
+                }
+            }
+        }
+        let inputs = heap.borrow_mut().insert_record(fields);
+        env.insert("inputs".to_string(), inputs);
+        Sess { heap, env, outputs: RefCell::new(IndexMap::new()) }
+    }
+
     pub fn bind(&self, name: &str, v: Value) {
         self.env.insert(name.to_string(), v);
     }
